@@ -24,6 +24,16 @@ PROPS = {
     },
 }
 
+PROPS["C15"] = {
+    "groups": [{"run": "^vpH_C15_(leaves|wrapped1)$"}, {"run": "^vpH_C15_wrapped2$", "thorough_only": True}],
+    "bounds": {"quick": "error values = 17 leaf kinds (library sentinels and error types, context errors, errors.New(text), and the nats.go client's *APIError 10071 / ErrKeyNotFound / ErrTimeout / ErrNoResponders / ErrConnectionClosed values) under 0 or 1 of 4 wrappers (fmt.Errorf %w with free text, ElectionError, TokenValidationError, the constructor's own wrapper); every message text, operation name, time-out and sequence number symbolic",
+               "thorough": "as quick plus wrap depth 2 (all 16 wrapper pairs)"},
+    "outside": "wrap depth > 2; Unwrap() []error trees (errors.Join); texts whose lower-casing is not ASCII-like",
+    "assumptions": ["strings.Contains(strings.ToLower(text), constant) over texts with free symbolic pieces is encoded by one Bool per (free piece, pattern) with substring-closure and equality axioms; exact when no occurrence can straddle a piece boundary, otherwise a free Bool is added (over-approximation, sat answers must replay). cvc5's string theory was tried first and abandoned: 7 min and 181 unknowns on the depth-0 harness",
+                    "formatted symbolic durations are opaque pieces matching -?[0-9][0-9.hmsµn]*"],
+    "level_text": "IsPermanentError/IsTransientError (with errors.Is/As following the real Is/Unwrap methods of the library's and nats.go's error types) are executed symbolically on every error shape in the bound with all texts symbolic; exclusivity, totality, the fixed classes (also wrapped) and the classification of the real NATS client's conflict/time-out values are decided by z3 for all texts, not for example messages.",
+    "level_note": "Error shapes bounded by wrap depth (1 quick / 2 thorough) and the listed leaf and wrapper kinds; the contains-abstraction above is part of the trusted base; counterexamples are replayed natively with synthesised texts.",
+}
 PROPS["S00"] = {"groups": [{"run": "^vpH_S00_"}], "level_text": "engine smoke test", "level_note": ""}
 
 NOT_APPLICABLE = {}
